@@ -85,6 +85,9 @@ type Config struct {
 	StartSlot           uint64 // the slot that begins at simulated time 0
 	CompareAttestations bool
 	AggSigDBV2          bool
+	// BuilderAPI is the node's --builder-api flag: passed to validatorapi.NewComponent and fetcher.New
+	// (the fetcher then asks the beacon node for builder blocks: BuilderBoostFactor = max). false = as before.
+	BuilderAPI bool
 }
 
 // Cluster is the simulated cluster.
@@ -117,6 +120,16 @@ type Cluster struct {
 	// other component exists yet): a harness can install further beacon endpoints (simbeacon.Client.
 	// ProposalFn) or wrap the existing ones (Beacon.AttData). nil = today's beacon stub.
 	BeaconSetup func(n *Node)
+	// WrapBeacon, if set, returns the eth2wrap.Client handed to every component of node n instead of
+	// n.Beacon itself (e.g. a wrapper that adds the duties / validators / submission endpoints and the
+	// production cache plumbing). Called after BeaconSetup.
+	WrapBeacon func(n *Node) eth2wrap.Client
+	// NewScheduler, if set, builds node n's scheduler (e.g. the real core/scheduler, started by the
+	// hook) over the node's beacon client; nil = the triggering stub n.Sched.
+	NewScheduler func(n *Node, eth2Cl eth2wrap.Client) core.Scheduler
+	// NewBroadcaster, if set, builds node n's broadcaster (e.g. the real core/bcast submitting to the
+	// node's beacon client); nil = the recording broadcaster.
+	NewBroadcaster func(n *Node, eth2Cl eth2wrap.Client) core.Broadcaster
 	// WithGraffiti makes every node's fetcher use a real (default-graffiti) GraffitiBuilder, which the
 	// proposer path dereferences; false = nil builder as before (attester-only harnesses).
 	WithGraffiti bool
@@ -354,7 +367,10 @@ func (c *Cluster) StartNode(i int) *Node {
 	if c.BeaconSetup != nil {
 		c.BeaconSetup(n)
 	}
-	eth2Cl := n.Beacon
+	var eth2Cl eth2wrap.Client = n.Beacon
+	if c.WrapBeacon != nil {
+		eth2Cl = c.WrapBeacon(n)
+	}
 
 	deadlineFunc, err := core.NewDutyDeadlineFunc(ctx, eth2Cl)
 	must(err)
@@ -367,7 +383,7 @@ func (c *Cluster) StartNode(i int) *Node {
 		func(s *pbv1.SniffedConsensusInstance) { c.mu.Lock(); n.Sniffed = append(n.Sniffed, s); c.mu.Unlock() }, c.Cfg.CompareAttestations)
 	must(err)
 	n.DutyDB = dutydb.NewMemDB(deadliner("dutydb"))
-	n.VAPI, err = validatorapi.NewComponent(eth2Cl, c.AllShares, i+1, func(core.PubKey) string { return "0x0000000000000000000000000000000000000000" }, false, 30000000)
+	n.VAPI, err = validatorapi.NewComponent(eth2Cl, c.AllShares, i+1, func(core.PubKey) string { return "0x0000000000000000000000000000000000000000" }, c.Cfg.BuilderAPI, 30000000)
 	must(err)
 	n.ParSigDB = parsigdb.NewMemDB(c.Threshold, deadliner("parsigdb"), parsigdb.NewMemDBMetadata(uint64(c.Chain.SlotDuration/time.Second), c.Chain.GenesisTime))
 	verify, err := parsigex.NewEth2Verifier(eth2Cl, c.AllShares)
@@ -389,7 +405,7 @@ func (c *Cluster) StartNode(i int) *Node {
 		graffiti, err = fetcher.NewGraffitiBuilder(pks, nil, false, eth2Cl) // nil graffiti: the default one, no beacon call
 		must(err)
 	}
-	fetch, err := fetcher.New(eth2Cl, func(core.PubKey) string { return "" }, false, graffiti, eth2p0.Slot(math.MaxInt64), false)
+	fetch, err := fetcher.New(eth2Cl, func(core.PubKey) string { return "" }, c.Cfg.BuilderAPI, graffiti, eth2p0.Slot(math.MaxInt64), false)
 	must(err)
 	n.Sched = &Sched{defs: map[core.Duty]core.DutyDefinitionSet{}}
 
@@ -410,7 +426,15 @@ func (c *Cluster) StartNode(i int) *Node {
 		wireOpts = append(wireOpts, c.WireOpts(i)...)
 	}
 	wireOpts = append(wireOpts, core.WithAsyncRetry(retryer))
-	core.Wire(n.Sched, fetch, n.Cons, n.DutyDB, n.VAPI, n.ParSigDB, n.ParSigEx, n.SigAgg, n.AggSigDB, recorder{n}, wireOpts...)
+	var sched core.Scheduler = n.Sched
+	if c.NewScheduler != nil {
+		sched = c.NewScheduler(n, eth2Cl)
+	}
+	var bcaster core.Broadcaster = recorder{n}
+	if c.NewBroadcaster != nil {
+		bcaster = c.NewBroadcaster(n, eth2Cl)
+	}
+	core.Wire(sched, fetch, n.Cons, n.DutyDB, n.VAPI, n.ParSigDB, n.ParSigEx, n.SigAgg, n.AggSigDB, bcaster, wireOpts...)
 
 	n.Cons.Start(ctx)
 	verifrt.Go(func() { n.ParSigDB.Trim(ctx) })
